@@ -4,7 +4,7 @@ From Coq Require Import List Bool Arith ZArith QArith String Lia.
 Import ListNotations.
 From DA Require Import Base.PyRT Base.Val Model.Sem Proofs.SemBasicP Model.ColumnsUsed Proofs.ColumnsUsedP1 Proofs.ColumnsUsedP2
   Proofs.ColumnsUsedP3 Proofs.ColumnsUsedP4 Proofs.ComposeP Model.SqlGen Model.SqlSem Proofs.SqlGenP1 Proofs.SqlGenP2 Proofs.SqlGenP3
-  Proofs.SqlGenP4 Proofs.SqlGenP5 Proofs.SqlGenP6 Proofs.SqlGenP10 Proofs.SqlGenP11 Proofs.SqlGenP12 Proofs.SqlGenP13 Proofs.SqlGenP14.
+  Proofs.SqlGenP4 Proofs.SqlGenP5 Proofs.SqlGenP6 Proofs.SqlGenP10 Proofs.SqlGenP11 Proofs.SqlGenP12 Proofs.SqlGenP13 Proofs.SqlGenP14 Proofs.SqlGenP15 Proofs.SqlGenP16.
 Local Open Scope list_scope.
 
 Definition req (p : op) (usg : option (list string)) : list string :=
@@ -52,7 +52,7 @@ Variable fl : flavor.
 Variable e : env.
 
 Theorem gen_stage1 : forall fuel d p usg n q n',
-  builder_ok p = true -> stage1 (d_allow_extend_merges d) p = true -> wf_env e p ->
+  builder_ok p = true -> stage1 (d_allow_extend_merges d) (join_covered d fl) p = true -> wf_env e p ->
   NoDup (req p usg) -> incl (req p usg) (column_names p) ->
   to_near_f fuel d p usg n = Ok (q, n') ->
   exists T, sem_gen fl p e = Some T /\ Delivers fl e q (req p usg) T /\ (d_allow_extend_merges d = true -> MergeInv q).
@@ -307,6 +307,21 @@ Proof.
     destruct (IH d s (Some su) n sub n1 BOs St (wf_env_unary e _ s eq_refl WF) Nsu Isu ER) as [S [ES [D MI]]]. cbn [req] in D.
     exists (sem_order fl cs rev lim S). split; [simpl; rewrite ES; reflexivity|].
     split; [apply (node_order fl e s cs rev lim sub u S _ BO ES Nu Iu D)|intros _; apply merge_inv_not_mergeable].
+  - (* natural_join written as a join (no rewrite) *)
+    cbn [stage1] in St. rewrite !andb_true_iff in St. destruct St as [[Sta Stb] Jk].
+    unfold join_covered in Jk. rewrite !andb_true_iff in Jk. destruct Jk as [[Carry NM] Jt]. apply negb_true_iff in NM.
+    destruct (bok_join _ _ _ _ _ BO) as [BOa BOb].
+    assert (gen_join d (to_near_f fuel d a) (to_near_f fuel d b) (OJoin a b on_a on_b jt) a b on_a on_b jt true usg n = Ok (q, n')) as HJ.
+    { destruct jt; try exact H; apply negb_true_iff in Jt; rewrite Jt in H; exact H. }
+    clear H.
+    pose proof (wf_env_left e (OJoin a b on_a on_b jt) a b eq_refl WF) as WFa. pose proof (wf_env_right e (OJoin a b on_a on_b jt) a b eq_refl WF) as WFb.
+    destruct (node_join fl e d (to_near_f fuel d a) (to_near_f fuel d b) a b on_a on_b jt usg n q n' Carry NM BO
+                (stage1_cols_nonempty _ _ a BOa Sta) (stage1_cols_nonempty _ _ b BOb Stb) Nu Iu HJ) as [T [ET [D MI]]].
+    + intros ul ql n1 n2 Nl Il E1. destruct (IH d a (Some ul) n1 ql n2 BOa Sta WFa Nl Il E1) as [A [EA [DA _]]].
+      exists A. split; [exact EA|]. split; [exact DA|]. exact (gen_bare_ok e fuel d a (Some ul) n1 ql n2 BOa WFa Il E1).
+    + intros ur qr n1 n2 Nr Ir E1. destruct (IH d b (Some ur) n1 qr n2 BOb Stb WFb Nr Ir E1) as [B [EB [DB _]]].
+      exists B. split; [exact EB|]. split; [exact DB|]. exact (gen_bare_ok e fuel d b (Some ur) n1 qr n2 BOb WFb Ir E1).
+    + exists T. split; [exact ET|]. split; [exact D|intros _; exact MI].
   - (* concat_rows *)
     simpl in St. rewrite !andb_true_iff in St. destruct St as [[Sta Stb] Sid].
     destruct (bok_concat _ _ _ _ _ BO) as [BOa [BOb Hab]].
@@ -317,7 +332,7 @@ Proof.
     set (p := OConcat a b idc an bn) in *.
     change (match usg with Some u0 => u0 | None => column_names p end) with u in H.
     set (u1 := if is_nil u then firstn 1 (column_names p) else u) in *.
-    assert (column_names p <> []) as NCp by (apply (stage1_cols_nonempty (d_allow_extend_merges d)); [exact BO|simpl; rewrite Sta, Stb, Sid; reflexivity]).
+    assert (column_names p <> []) as NCp by (apply (stage1_cols_nonempty (d_allow_extend_merges d) (join_covered d fl)); [exact BO|simpl; rewrite Sta, Stb, Sid; reflexivity]).
     assert (u1 <> [] /\ NoDup u1 /\ incl u1 (column_names p) /\ incl u u1) as [NU1 [Nu1 [Iu1 Iuu1]]].
     { unfold u1. destruct (is_nil u) eqn:EN.
       - assert (u = []) as Eu by (destruct u; [reflexivity|discriminate]).
@@ -347,7 +362,7 @@ Proof.
     injection H as <- _.
     pose proof (wf_env_left e p a b eq_refl WF) as WFa. pose proof (wf_env_right e p a b eq_refl WF) as WFb.
     (* the two operands, with their labels *)
-    assert (forall (x : op) (lab : string), builder_ok x = true -> stage1 (d_allow_extend_merges d) x = true -> wf_env e x ->
+    assert (forall (x : op) (lab : string), builder_ok x = true -> stage1 (d_allow_extend_merges d) (join_covered d fl) x = true -> wf_env e x ->
               (forall c, In c (column_names a) <-> In c (column_names x)) ->
               match idc with Some _ => concat_src_ok x = true | None => True end ->
               forall qx m1 m2, to_near_f fuel d (match idc with Some c => builder_extend_const x c (VStr lab) | None => x end) (Some uj) m1 = Ok (qx, m2) ->
@@ -360,7 +375,7 @@ Proof.
       - assert (~ In c0 (column_names x)) as Ncx by (intros I; apply Hab, Eax, I).
         destruct (builder_extend_const_cases x c0 (VStr lab) Okx) as [EB|[s0 [ops0 [Ex EB]]]]; rewrite EB in ER.
         + assert (builder_ok (OExtend x [(c0, EConst (VStr lab))] false no_window) = true) as BOe by (simpl; rewrite BOx; reflexivity).
-          assert (stage1 (d_allow_extend_merges d) (OExtend x [(c0, EConst (VStr lab))] false no_window) = true) as Ste by (simpl; rewrite Stx; reflexivity).
+          assert (stage1 (d_allow_extend_merges d) (join_covered d fl) (OExtend x [(c0, EConst (VStr lab))] false no_window) = true) as Ste by (simpl; rewrite Stx; reflexivity).
           assert (incl uj (column_names (OExtend x [(c0, EConst (VStr lab))] false no_window))) as Ije.
           { intros c Hc. simpl. apply In_add_end. destruct (Ijx c Hc) as [X|X]; [left; exact X|right; exact X]. }
           destruct (IH d _ (Some uj) m1 qx m2 BOe Ste (wf_env_unary e _ x eq_refl WFx) Nuj Ije ER) as [TX [ETX [DX _]]]. cbn [req] in DX.
@@ -371,7 +386,7 @@ Proof.
         + subst x.
           assert (~ In c0 (map fst ops0)) as Nck by (intros I; apply Ncx; simpl; apply in_ext_cols; right; exact I).
           pose proof (bok_extend_app_const s0 ops0 c0 (VStr lab) BOx Nck) as BOe.
-          assert (stage1 (d_allow_extend_merges d) (OExtend s0 (ops0 ++ [(c0, EConst (VStr lab))]) false no_window) = true) as Ste by exact Stx.
+          assert (stage1 (d_allow_extend_merges d) (join_covered d fl) (OExtend s0 (ops0 ++ [(c0, EConst (VStr lab))]) false no_window) = true) as Ste by exact Stx.
           assert (incl uj (column_names (OExtend s0 (ops0 ++ [(c0, EConst (VStr lab))]) false no_window))) as Ije.
           { intros c Hc. cbn [column_names]. unfold ext_cols. rewrite map_app, fold_left_app. simpl. apply In_add_end.
             destruct (Ijx c Hc) as [X|X]; [left; exact X|right; exact X]. }
